@@ -42,6 +42,14 @@ CHECKS["C15"] = dict(level="model_checking", engine="E1-enum",
    technique="exhaustive enumeration of version-component x architecture x format combinations: ConventionalFileName then Package on one effective-settings object, name re-derived from the decoded metadata; the built nfpm binary driven over all target spellings x -p",
    text="All 96 epoch/prerelease/metadata/release/schema/v-prefix combinations x {amd64, arm5, override} and every documented GOARCH (base version) x 5 formats: the conventional name is asked first, then the package is built from the same settings; the name must equal the one the format's naming rule derives from the metadata inside that package, end in the conventional extension, be stable, and the bytes must equal a build without the name call. The nfpm binary built from the tree is run for target in {file, existing dir, empty, file with another format's extension, file in a missing dir} x -p given/absent x 5 formats x 2 versions: exactly the requested file (or conventional name in the dir / cwd) is created, with the right packager; failing invocations leave nothing behind.",
    note="Trusted: naming rules as transcribed in props/c15.go (epoch not part of deb/ipk/archlinux names); pkgread parsers; non-linux platforms excluded.", ref="§3 C15")
+CHECKS["C13"] = dict(level="model_checking", engine="E1-enum",
+   technique="reflection-driven exhaustive enumeration of every overridable leaf x override-key format x asked format (and Get order) on the real Parse/Get, judged differentially against the same settings written out without override block",
+   text="Every leaf of Overridables (by reflection from the tree under test: lists, maps, bools, modes, *string key ids, nested rpm/deb/apk/archlinux/ipk blocks, content and alternatives lists as wholesale values) x each of the five formats as override key x {non-empty, empty} override value: Get(key) first and then Get(f) for every format (plus: every other format asked first) must deep-equal the effective settings of a freshly parsed document in which exactly that field was replaced by hand. Validate is run on 15 override keys (registered, unregistered names sorting before/after the registered ones, wrong case). Base and override content lists with entries addressed to every packager are built for all formats and the packages inspected.",
+   note="Trusted: the differential reference is nfpm's own parser on a document without overrides (so a defect of plain parsing common to both sides is C16's business); merge rules as in the statement.", ref="§3 C13")
+CHECKS["C16"] = dict(level="model_checking", engine="E1-enum",
+   technique="reflection-driven exhaustive enumeration of every mapping level / key path of the configuration types with injected undefined keys, and of every string-valued leaf x value shapes x environment mappings, on the real parser",
+   text="Every mapping level of nfpm.Config (36 levels by reflection: top, nested blocks, list elements, overrides.<format>.*, file_info) gets an undefined sibling key (3 spellings) and every one of the 163 leaf keys is misspelt: the strict parser must reject each (with a parsing control document per level). Every string / *string / list / map leaf x {plain, ${V}, pre-$V-post, '  $E  ', '  padded  '} x {V=val, V=empty, nil mapping}: values without '$' unchanged (documented lists trimmed), fields that configuration.md documents as expandable (table parsed from the docs at run time) substituted through the caller's mapping, empty list items dropped; contents src/dst expanded iff expand:true at top level and in overrides; all 16 presence combinations of the passphrase variables.",
+   note="Trusted: the documentation's list of expandable fields as parsed by props/c16.go; fields expanded beyond it are not judged when they contain '$'.", ref="§3 C16")
 NOT_YET = {}
 ALL = ["C%02d" % i for i in range(1, 18)]
 
